@@ -249,3 +249,312 @@ Section AtomToken.
         cbn [wvalue render_word]. rewrite (setType_prefixed (dbs "type:"%string) tokType) by in_prefixes. reflexivity.
   Qed.
 End AtomToken.
+
+(** ------------------------------------------------------------------ structural tokens *)
+
+Lemma nt_neg X : nextToken (45 :: X) = Ok (Some {| ttype := tokNegate; ttext := [45]; tinput := [45] |}).
+Proof. reflexivity. Qed.
+
+Lemma nt_open X : nextToken (40 :: 32 :: X) = Ok (Some {| ttype := tokParenOpen; ttext := [40]; tinput := [40] |}).
+Proof. reflexivity. Qed.
+
+Lemma nt_close X : nextToken (41 :: X) = Ok (Some {| ttype := tokParenClose; ttext := [41]; tinput := [41] |}).
+Proof.
+  unfold nextToken. change (41 =? 45) with false. cbn iota.
+  change (tok_loop (S (List.length (41 :: X))) (41 :: X) 0 []) with (@Ok (str * str * bool) ([41], X, false)).
+  cbn [obind andb]. rewrite csub_le by (simpl; lia). cbn [obind].
+  replace (Nat.sub (List.length (41 :: X)) (List.length X)) with 1%nat by (cbn [length]; lia). reflexivity.
+Qed.
+
+Lemma nt_or X : nextToken (111 :: 114 :: 32 :: X) = Ok (Some {| ttype := tokOr; ttext := [111; 114]; tinput := [111; 114] |}).
+Proof.
+  pose proof (nt_atom [] (WPlain [111; 114]) (32 :: X) 111 [114] eq_refl eq_refl) as Hn.
+  cbn [app render_word wvalue] in Hn. rewrite Hn; try discriminate; try reflexivity. simpl. auto.
+Qed.
+
+Lemma atom_ty e ty text : atom_tok e = Some (ty, text) ->
+  (ty =? tokParenOpen) = false /\ (ty =? tokNegate) = false /\ (ty =? tokParenClose) = false /\ (ty =? tokOr) = false.
+Proof.
+  destruct e as [w|f a w|f v|k|a t|e1|q]; cbn [atom_tok]; try discriminate; intros E; inversion E; subst;
+    try (repeat split; reflexivity); destruct f; repeat split; reflexivity.
+Qed.
+
+Lemma unopt_ok x p : unopt x = Ok p -> x = Ok (Some p).
+Proof. unfold unopt. destruct x as [[p'|]| |]; cbn [obind]; intros E; inversion E; reflexivity. Qed.
+
+Lemma seq_cons_inv {A} (x : outcome A) r l : seq (x :: r) = Ok l -> exists a b, x = Ok a /\ seq r = Ok b /\ l = a :: b.
+Proof.
+  cbn [seq]. destruct x as [a| |]; cbn [obind]; try discriminate. destruct (seq r) as [b| |]; cbn [obind]; try discriminate.
+  intros E. inversion E. eauto.
+Qed.
+
+(** ------------------------------------------------------------------ expressions and lists *)
+
+Lemma R_head rq rcompile e : wf_expr rq rcompile e = true -> exists c tl, R e = c :: tl /\ isSpace c = false.
+Proof.
+  destruct e as [w|f a w|f v|k|a t|e1|q]; cbn [wf_expr render_expr]; intros Hwf.
+  - apply andb_prop in Hwf as [Hlex _]. destruct w as [v|v]; cbn [wf_text render_word] in *.
+    + repeat (apply andb_prop in Hlex as [Hlex ?]). destruct v as [|c tl]; [discriminate|].
+      exists c, tl. split; [reflexivity|].
+      match goal with H : forallb plain (c :: tl) = true |- _ => simpl in H; apply andb_prop in H as [Hc _] end.
+      unfold plain in Hc. apply negb_true_iff in Hc. repeat (apply orb_false_elim in Hc as [Hc ?]).
+      unfold isSpace. match goal with H1 : (c =? 32) = false, H2 : (c =? 9) = false |- _ => rewrite H1, H2 end. reflexivity.
+    + eexists; eexists; split; reflexivity.
+  - destruct f, a; eexists; eexists; split; reflexivity.
+  - destruct f; eexists; eexists; split; reflexivity.
+  - eexists; eexists; split; reflexivity.
+  - destruct a; eexists; eexists; split; reflexivity.
+  - eexists; eexists; split; reflexivity.
+  - eexists; eexists; split; reflexivity.
+Qed.
+
+Lemma skipSpaces_head c tl : isSpace c = false -> skipSpaces (c :: tl) = c :: tl.
+Proof. intros H. simpl. rewrite H. reflexivity. Qed.
+
+Definition stopok (stop : str) : Prop := stop = [] \/ exists r, stop = 41 :: r.
+Lemma stopok_delim stop : stopok stop -> delim stop.
+Proof. intros [-> | [r ->]]; simpl; auto. Qed.
+
+Section Bytes.
+  Variable rq : str -> rqres.
+  Variable rx_auto : str -> bool.
+  Variable rcompile : str -> bool.
+  Variable lang : str -> option str.
+  Notation parseExpr := (parseExpr rq rx_auto rcompile lang).
+  Notation parseExprList := (parseExprList rq rx_auto rcompile lang).
+  Notation exprList_loop := (exprList_loop rq rx_auto rcompile lang).
+  Notation iexpr := (iexpr rq rx_auto rcompile lang).
+  Notation wf := (wf_expr rq rcompile).
+
+  Definition Rc (c : list dexpr) : str := join [32] (map R c).
+  Definition Rq (q : dquery) : str := join (dbs " or "%string) (map Rc q).
+
+  Definition A2spec (e : dexpr) : Prop :=
+    forall p rest f, wf e = true -> iexpr e = Ok p -> delim rest ->
+      (3 * List.length (R e ++ rest) + 1 <= f)%nat ->
+      parseExpr f (R e ++ rest) = Ok (Some p, List.length (R e)).
+
+  (** the first token of an expression is neither ")" nor "or" *)
+  Lemma first_tok e rest : wf e = true -> delim rest ->
+    exists tok, nextToken (R e ++ rest) = Ok (Some tok) /\ (ttype tok =? tokParenClose) = false /\ (ttype tok =? tokOr) = false.
+  Proof.
+    intros Hwf Hd. destruct (atom_tok e) as [[ty text]|] eqn:Ha.
+    - rewrite (atom_token rq rcompile e rest ty text Hwf Ha Hd). eexists. split; [reflexivity|].
+      destruct (atom_ty _ _ _ Ha) as [_ [_ [H1 H2]]]. auto.
+    - destruct e; cbn [atom_tok] in Ha; try discriminate; cbn [render_expr app].
+      + rewrite nt_neg. eexists. split; [reflexivity|]. split; reflexivity.
+      + rewrite nt_open. eexists. split; [reflexivity|]. split; reflexivity.
+  Qed.
+
+  Lemma loop_step e p sp rest acc f :
+    A2spec e -> wf e = true -> iexpr e = Ok p -> (sp = [] \/ sp = [32]) -> delim rest ->
+    (3 * List.length (sp ++ R e ++ rest) + 2 <= S f)%nat ->
+    exprList_loop (S f) (sp ++ R e ++ rest) acc = exprList_loop f rest (acc ++ [raw_of p]).
+  Proof.
+    intros HA Hwf Hi Hsp Hd Hf. rewrite exprList_loop_S.
+    destruct (R_head _ _ _ Hwf) as [c [tl [HR Hc]]].
+    assert (Hb1 : skipSpaces (sp ++ R e ++ rest) = R e ++ rest).
+    { destruct Hsp as [-> | ->]; cbn [app]; [|change (skipSpaces (32 :: R e ++ rest)) with (skipSpaces (R e ++ rest))];
+        rewrite HR; cbn [app]; apply skipSpaces_head; exact Hc. }
+    assert (Hne : exists x y, sp ++ R e ++ rest = x :: y).
+    { destruct Hsp as [-> | ->]; cbn [app]; [rewrite HR|]; eexists; eexists; reflexivity. }
+    destruct Hne as [x [y Hxy]]. rewrite Hxy. rewrite <- Hxy. clear x y Hxy. cbv zeta. rewrite Hb1.
+    assert (Hlen : (List.length (R e ++ rest) <= List.length (sp ++ R e ++ rest))%nat) by (rewrite (app_length sp); lia).
+    assert (Hpe : parseExpr f (R e ++ rest) = Ok (Some p, List.length (R e))) by (apply HA; auto; lia).
+    rewrite Hpe. cbn [obind]. rewrite drop_le by (rewrite app_length; lia). cbn [obind]. rewrite skipn_exact.
+    destruct (first_tok e rest Hwf Hd) as [tok [Ht [H1 H2]]]. rewrite Ht, H1, H2. reflexivity.
+  Qed.
+
+  Lemma loop_or X acc f :
+    exprList_loop (S f) (32 :: 111 :: 114 :: 32 :: X) acc = exprList_loop f (32 :: X) (acc ++ [ROr]).
+  Proof.
+    rewrite exprList_loop_S. cbv zeta.
+    change (skipSpaces (32 :: 111 :: 114 :: 32 :: X)) with (111 :: 114 :: 32 :: X).
+    rewrite nt_or. cbn [ttype tinput]. change (tokOr =? tokParenClose) with false. change (tokOr =? tokOr) with true. cbn iota.
+    rewrite drop_le by (simpl; lia). reflexivity.
+  Qed.
+
+  Lemma loop_end stop acc f : stopok stop -> exprList_loop (S f) stop acc = Ok (acc, stop).
+  Proof.
+    intros [-> | [r ->]]; rewrite exprList_loop_S; [reflexivity|]. cbv zeta.
+    change (skipSpaces (41 :: r)) with (41 :: r). rewrite nt_close. reflexivity.
+  Qed.
+
+  Notation rawsof c := (seq (map (fun e => do p <- iexpr e; Ok (raw_of p)) c)).
+
+  Lemma Rc_single e : Rc [e] = R e. Proof. reflexivity. Qed.
+  Lemma Rc_cons e e2 c2 : Rc (e :: e2 :: c2) = R e ++ 32 :: Rc (e2 :: c2). Proof. reflexivity. Qed.
+  Lemma Rq_single c : Rq [c] = Rc c. Proof. reflexivity. Qed.
+  Lemma Rq_cons c c2 q : Rq (c :: c2 :: q) = Rc c ++ 32 :: 111 :: 114 :: 32 :: Rq (c2 :: q). Proof. reflexivity. Qed.
+
+  Lemma loop_conj c : Forall A2spec c -> c <> [] -> forallb wf c = true ->
+    forall sp rest acc f rc, (sp = [] \/ sp = [32]) -> delim rest -> rawsof c = Ok rc ->
+      (3 * List.length (sp ++ Rc c ++ rest) + 2 <= f)%nat ->
+      exists f', (3 * List.length rest + 2 <= f')%nat /\
+                 exprList_loop f (sp ++ Rc c ++ rest) acc = exprList_loop f' rest (acc ++ rc).
+  Proof.
+    induction 1 as [|e c He Hc IH]; intros Hne Hwf sp rest acc f rc Hsp Hd Hraws Hf; [congruence|].
+    cbn [forallb] in Hwf. apply andb_prop in Hwf as [Hwe Hwc].
+    cbn [map] in Hraws. apply seq_cons_inv in Hraws as [a [b [Ha [Hb ->]]]].
+    destruct (iexpr e) as [p| |] eqn:Hi; cbn [obind] in Ha; try discriminate. inversion Ha. subst a. clear Ha.
+    destruct (R_head _ _ _ Hwe) as [ch [tl [HR _]]].
+    destruct c as [|e2 c2].
+    - (* last expression of the conjunction *)
+      cbn [seq map] in Hb. inversion Hb. subst b. rewrite Rc_single in *.
+      destruct f as [|f0]; [lia|]. exists f0. split.
+      + rewrite !app_length in Hf. rewrite HR in Hf. cbn [length] in Hf. lia.
+      + apply loop_step; auto.
+    - rewrite Rc_cons in *.
+      destruct f as [|f0]; [lia|].
+      replace (sp ++ (R e ++ 32 :: Rc (e2 :: c2)) ++ rest) with (sp ++ R e ++ (32 :: Rc (e2 :: c2) ++ rest)) in *
+        by (rewrite <- !app_assoc; reflexivity).
+      rewrite (loop_step e p sp _ acc f0 He Hwe Hi Hsp); [|simpl; auto|exact Hf].
+      destruct (IH ltac:(discriminate) Hwc [32] rest (acc ++ [raw_of p]) f0 b) as [f' [Hf' He']]; auto.
+      + rewrite (app_length sp), (app_length (R e)) in Hf. rewrite HR in Hf. cbn [length app] in *. lia.
+      + exists f'. split; [exact Hf'|]. cbn [app] in He'. rewrite He'. rewrite <- app_assoc. reflexivity.
+  Qed.
+
+  Notation rawsq q := (seq (map (fun c => rawsof c) q)).
+
+  Definition wfc (c : list dexpr) : bool := existsb (fun e => negb (is_directive e)) c && forallb wf c.
+
+  Lemma wfc_ne c : wfc c = true -> c <> [] /\ forallb wf c = true.
+  Proof. unfold wfc. intros H. apply andb_prop in H as [H1 H2]. split; [|exact H2]. destruct c; [discriminate|discriminate]. Qed.
+
+  Lemma Rc_head c : wfc c = true -> exists ch tl, Rc c = ch :: tl.
+  Proof.
+    intros H. destruct (wfc_ne _ H) as [Hne Hw]. destruct c as [|e c]; [congruence|].
+    cbn [forallb] in Hw. apply andb_prop in Hw as [He _]. destruct (R_head _ _ _ He) as [ch [tl [HR _]]].
+    destruct c as [|e2 c2]; [rewrite Rc_single | rewrite Rc_cons]; rewrite HR; eexists; eexists; reflexivity.
+  Qed.
+
+  Lemma loop_conjs q : Forall (Forall A2spec) q -> q <> [] -> forallb wfc q = true ->
+    forall sp stop acc f cs, (sp = [] \/ sp = [32]) -> stopok stop -> rawsq q = Ok cs ->
+      (3 * List.length (sp ++ Rq q ++ stop) + 2 <= f)%nat ->
+      exprList_loop f (sp ++ Rq q ++ stop) acc = Ok (acc ++ sep_raws cs, stop).
+  Proof.
+    induction 1 as [|c q Hc Hq IH]; intros Hne Hwf sp stop acc f cs Hsp Hstop Hraws Hf; [congruence|].
+    cbn [forallb] in Hwf. apply andb_prop in Hwf as [Hwc Hwq].
+    cbn [map] in Hraws. apply seq_cons_inv in Hraws as [rc [cs' [Hrc [Hcs ->]]]].
+    destruct (wfc_ne _ Hwc) as [Hcne Hcw]. destruct (Rc_head _ Hwc) as [ch [tl HRc]].
+    destruct q as [|c2 q2].
+    - cbn [seq map] in Hcs. inversion Hcs. subst cs'. rewrite Rq_single in *.
+      destruct (loop_conj c Hc Hcne Hcw sp stop acc f rc Hsp (stopok_delim _ Hstop) Hrc Hf) as [f' [Hf' He]].
+      rewrite He. destruct f' as [|f0]; [lia|]. rewrite loop_end by exact Hstop. reflexivity.
+    - rewrite Rq_cons in *.
+      replace (sp ++ (Rc c ++ 32 :: 111 :: 114 :: 32 :: Rq (c2 :: q2)) ++ stop)
+        with (sp ++ Rc c ++ (32 :: 111 :: 114 :: 32 :: Rq (c2 :: q2) ++ stop)) in * by (rewrite <- !app_assoc; reflexivity).
+      destruct (loop_conj c Hc Hcne Hcw sp (32 :: 111 :: 114 :: 32 :: Rq (c2 :: q2) ++ stop) acc f rc Hsp) as [f' [Hf' He]];
+        [simpl; auto | exact Hrc | exact Hf |].
+      rewrite He. destruct f' as [|f0]; [lia|]. rewrite loop_or.
+      change (32 :: Rq (c2 :: q2) ++ stop) with ([32] ++ Rq (c2 :: q2) ++ stop).
+      rewrite (IH ltac:(discriminate) Hwq [32] stop _ f0 cs'); auto.
+      + change (sep_raws (rc :: cs')) with (match cs' with [] => rc | _ => rc ++ ROr :: sep_raws cs' end).
+        destruct cs' as [|x y]; [cbn [seq map] in Hcs; destruct (rawsof c2) as [?| |]; cbn [obind] in Hcs; try discriminate;
+                                 destruct (rawsq q2) as [?| |]; cbn [obind] in Hcs; discriminate|].
+        rewrite <- !app_assoc. reflexivity.
+      + cbn [length app] in *. lia.
+  Qed.
+
+  (** ---- parseExpr on a printed expression *)
+
+  Lemma A2_atom e ty text : atom_tok e = Some (ty, text) -> A2spec e.
+  Proof.
+    intros Ha p rest f Hwf Hi Hd Hf. destruct f as [|f0]; [lia|].
+    destruct (R_head _ _ _ Hwf) as [c [tl [HR Hc]]].
+    rewrite parseExpr_S. cbv zeta.
+    assert (Hsk : skipSpaces (R e ++ rest) = R e ++ rest) by (rewrite HR; cbn [app]; apply skipSpaces_head; exact Hc).
+    rewrite Hsk. rewrite (atom_token rq rcompile e rest ty text Hwf Ha Hd). cbn [obind ttype ttext tinput].
+    rewrite drop_le by (rewrite app_length; lia). cbn [obind]. rewrite skipn_exact.
+    destruct (atom_ty _ _ _ Ha) as [H1 [H2 _]]. rewrite H1, H2.
+    assert (Hx : atom_expr rq rcompile lang ty text = Ok (Some p)).
+    { apply unopt_ok. destruct e; cbn [atom_tok] in Ha; try discriminate; cbn [QueryDocTree.iexpr atom_tok] in Hi;
+        inversion Ha; subst; exact Hi. }
+    rewrite Hx. cbn [obind]. rewrite csub_le by (rewrite app_length; lia). cbn [obind].
+    f_equal. f_equal. rewrite app_length. lia.
+  Qed.
+
+  Lemma A2_neg e : A2spec e -> A2spec (DNeg e).
+  Proof.
+    intros IH p rest f Hwf Hi Hd Hf. destruct f as [|f0]; [lia|].
+    cbn [wf_expr] in Hwf. apply andb_prop in Hwf as [_ Hwe].
+    cbn [QueryDocTree.iexpr] in Hi. destruct (iexpr e) as [p1| |] eqn:Hi1; cbn [obind] in Hi; try discriminate.
+    cbn [render_expr app] in *. rewrite parseExpr_S. cbv zeta.
+    change (skipSpaces (45 :: R e ++ rest)) with (45 :: R e ++ rest).
+    rewrite nt_neg. cbn [obind ttype tinput]. rewrite drop_le by (simpl; lia). cbn [obind].
+    change (skipn (List.length [45]) (45 :: R e ++ rest)) with (R e ++ rest).
+    change (tokNegate =? tokParenOpen) with false. change (tokNegate =? tokNegate) with true. cbn iota.
+    rewrite (IH p1 rest f0 Hwe Hi1 Hd) by (cbn [length] in Hf; lia). cbn [obind].
+    destruct p1 as [q|t]; [|discriminate]. 
+    destruct q; try discriminate; inversion Hi; subst p;
+      (rewrite drop_le by (rewrite app_length; lia); cbn [obind]; rewrite skipn_exact;
+       rewrite csub_le by (cbn [length]; rewrite app_length; lia); cbn [obind]; f_equal; f_equal;
+       cbn [length]; rewrite app_length; lia).
+  Qed.
+
+  Lemma A2_group q : Forall (Forall A2spec) q -> A2spec (DGroup q).
+  Proof.
+    intros IH p rest f Hwf Hi Hd Hf. destruct f as [|f0]; [lia|].
+    cbn [wf_expr] in Hwf. apply andb_prop in Hwf as [Hne Hwq].
+    assert (Hq : q <> []) by (destruct q; [discriminate|discriminate]).
+    cbn [QueryDocTree.iexpr] in Hi.
+    destruct (rawsq q) as [cs| |] eqn:Hcs; cbn [obind] in Hi; try discriminate.
+    destruct (finish_list rx_auto (sep_raws cs)) as [items| |] eqn:Hfl; cbn [obind] in Hi; try discriminate.
+    destruct (parseOperators items) as [t| |] eqn:Hpo; cbn [obind] in Hi; try discriminate. inversion Hi. subst p.
+    assert (HR : R (DGroup q) = 40 :: 32 :: Rq q ++ [41]) by reflexivity.
+    rewrite HR in *. cbn [app] in *. rewrite <- app_assoc in *. cbn [app] in *.
+    rewrite parseExpr_S. cbv zeta.
+    change (skipSpaces (40 :: 32 :: Rq q ++ 41 :: rest)) with (40 :: 32 :: Rq q ++ 41 :: rest).
+    rewrite nt_open. cbn [obind ttype tinput]. rewrite drop_le by (simpl; lia). cbn [obind].
+    change (skipn (List.length [40]) (40 :: 32 :: Rq q ++ 41 :: rest)) with (32 :: Rq q ++ 41 :: rest).
+    change (tokParenOpen =? tokParenOpen) with true. cbn iota.
+    destruct f0 as [|f1]; [cbn [length] in Hf; lia|].
+    rewrite parseExprList_S.
+    change (32 :: Rq q ++ 41 :: rest) with ([32] ++ Rq q ++ 41 :: rest).
+    rewrite (loop_conjs q IH Hq Hwq [32] (41 :: rest) [] f1 cs); auto; [|right; eexists; reflexivity|cbn [length app] in *; lia].
+    cbn [obind app]. rewrite Hfl. cbn [obind].
+    rewrite csub_le by (cbn [length]; rewrite app_length; cbn [length]; lia). cbn [obind].
+    replace (Nat.sub (List.length (32 :: Rq q ++ 41 :: rest)) (List.length (41 :: rest))) with (S (List.length (Rq q)))
+      by (cbn [length]; rewrite app_length; cbn [length]; lia).
+    rewrite drop_le by (cbn [length]; rewrite app_length; cbn [length]; lia). cbn [obind].
+    change (skipn (S (List.length (Rq q))) (32 :: Rq q ++ 41 :: rest)) with (skipn (List.length (Rq q)) (Rq q ++ 41 :: rest)).
+    rewrite skipn_exact. rewrite nt_close. cbn [obind ttype tinput].
+    change (tokParenClose =? tokParenClose) with true. cbn iota.
+    rewrite drop_le by (simpl; lia). cbn [obind]. change (skipn (List.length [41]) (41 :: rest)) with rest.
+    rewrite Hpo. cbn [obind].
+    rewrite csub_le by (cbn [length]; rewrite app_length; cbn [length]; lia). cbn [obind].
+    f_equal. f_equal. cbn [length]. rewrite !app_length. cbn [length]. lia.
+  Qed.
+
+  Theorem A2_all e : A2spec e.
+  Proof.
+    induction e using dexpr_ind'.
+    - eapply A2_atom; reflexivity. - eapply A2_atom; reflexivity. - eapply A2_atom; reflexivity.
+    - eapply A2_atom; reflexivity. - eapply A2_atom; reflexivity.
+    - apply A2_neg; assumption. - apply A2_group; assumption.
+  Qed.
+
+  (** BYTE LEVEL: the parser on the printed string goes through the token structure of the abstract query *)
+  Theorem parse_render_iquery q : wf_query rq rcompile q = true ->
+    parse rq rx_auto rcompile lang (render q) = iquery rq rx_auto rcompile lang q.
+  Proof.
+    intros Hwf. unfold wf_query in Hwf. cbn [wf_expr] in Hwf. apply andb_prop in Hwf as [Hne Hwq].
+    assert (Hq : q <> []) by (destruct q; [discriminate|discriminate]).
+    assert (HR : render q = Rq q) by reflexivity.
+    unfold parse, parse_with, parse_fuel, iquery. rewrite HR.
+    assert (Hall : Forall (Forall A2spec) q).
+    { apply Forall_forall. intros c _. apply Forall_forall. intros e _. apply A2_all. }
+    assert (Hok : exists cs, rawsq q = Ok cs).
+    { exists (map (map (e_raw rq rx_auto rcompile lang)) q). apply seq_map_ok. apply Forall_forall. intros c Hc.
+      apply seq_map_ok. apply Forall_forall. intros e He.
+      rewrite forallb_forall in Hwq. specialize (Hwq c Hc). apply wfc_ne in Hwq as [_ Hwc].
+      rewrite forallb_forall in Hwc. destruct (spec_all rq rx_auto rcompile lang e (Hwc e He)) as [H1 _]. exact H1. }
+    destruct Hok as [cs Hcs]. rewrite Hcs. cbn [obind].
+    replace (3 * List.length (Rq q) + 3)%nat with (S (3 * List.length (Rq q) + 2)) by lia.
+    rewrite parseExprList_S.
+    pose proof (loop_conjs q Hall Hq Hwq [] [] [] (3 * List.length (Rq q) + 2) cs (or_introl eq_refl) (or_introl eq_refl) Hcs) as Hl.
+    cbn [app] in Hl. rewrite app_nil_r in Hl. rewrite Hl by lia. cbn [obind app].
+    destruct (finish_list rx_auto (sep_raws cs)) as [items| |]; cbn [obind]; try reflexivity.
+    rewrite csub_le by (simpl; lia). cbn [obind length]. rewrite Nat.sub_0_r, Nat.eqb_refl. reflexivity.
+  Qed.
+End Bytes.
